@@ -181,6 +181,105 @@ func genC12(c *lp.Ctx) {
 	}
 }
 
+// fnv32a is hash/fnv's New32a over a string (the cheap hash a Go program reaches for first).
+func fnv32a(h uint32, s string) uint32 {
+	for i := 0; i < len(s); i++ {
+		h ^= uint32(s[i])
+		h *= 16777619
+	}
+	return h
+}
+
+// fnvTwin finds a 5-byte string different from p (5 bytes) that leaves FNV-1a/32 in the same state, by meeting in
+// the middle (2 bytes forward, 3 bytes backward through the inverse of the FNV prime).  ok = false if none.
+func fnvTwin(p string) (string, bool) {
+	const basis, prime = 2166136261, 16777619
+	const inv = 899433627 // prime * inv = 1 mod 2^32
+	target := fnv32a(basis, p)
+	fwd := make(map[uint32][2]byte, 1<<16)
+	for a := 0; a < 256; a++ {
+		for b := 0; b < 256; b++ {
+			fwd[fnv32a(basis, string([]byte{byte(a), byte(b)}))] = [2]byte{byte(a), byte(b)}
+		}
+	}
+	for e := 0; e < 256; e++ {
+		h4 := target*inv ^ uint32(e)
+		for d := 0; d < 256; d++ {
+			h3 := h4*inv ^ uint32(d)
+			for c := 0; c < 256; c++ {
+				h2 := h3*inv ^ uint32(c)
+				if ab, ok := fwd[h2]; ok {
+					q := string([]byte{ab[0], ab[1], byte(c), byte(d), byte(e)})
+					if q != p {
+						return q, true
+					}
+				}
+			}
+		}
+	}
+	return "", false
+}
+
+// genC12hashTwins: an index must answer from its records, not from what it remembers about earlier queries under a
+// HASH of the query.  Keys share a 5-byte head; for some of them an absent string with the same FNV-1a/32 hash is
+// asked first (it differs from the key only inside the head, which a filter-mode trie skips, so the lookup reaches
+// the reader and is rejected there), then the key itself: it must still be found.
+func genC12hashTwins(c *lp.Ctx) {
+	for it := 0; it < c.Pick(2, 6); it++ {
+		head := []byte("user/")
+		for i := range head {
+			if c.Rng.Intn(2) == 0 {
+				head[i] = byte(0x21 + c.Rng.Intn(90))
+			}
+		}
+		twin, ok := fnvTwin(string(head))
+		if !ok {
+			continue
+		}
+		n := 40 + c.Rng.Intn(100)
+		keys := make([]string, n)
+		for i := range keys {
+			keys[i] = string(head) + fmt.Sprintf("%04d", 7*i+3)
+		}
+		for _, block := range []bool{false, true} {
+			var sb strings.Builder
+			sb.WriteString("idx.new")
+			for i, k := range keys {
+				off := int64(100 + 10*i)
+				if block {
+					off = int64(100 + 10*(i/4))
+				}
+				fmt.Fprintf(&sb, " %s %d %s", lp.XS(k), off, lp.XS(fmt.Sprintf("v%d", i)))
+			}
+			line := sb.String()
+			if got := c.Do(line); got != "ok" {
+				continue
+			}
+			op := "idx.get"
+			if block {
+				op = "idx.rget"
+			}
+			c.Case(fmt.Sprintf("hash-twins|%v|%s|%d", block, lp.XS(string(head)), n), true)
+			c.Hit("history:absent FNV-1a/32 twin, then the key")
+			for i, k := range keys {
+				if i%3 != 0 {
+					continue
+				}
+				q := twin + k[len(head):]
+				if got := c.Do(op + " " + lp.XS(q)); got != "nf" {
+					c.Violate(lp.Violation{What: "SlimIndex with a key-verifying reader is an exact map", Script: []string{line, op + " " + lp.XS(q)}, Expected: "nf", Got: got})
+				}
+				want := "f " + lp.XS(fmt.Sprintf("v%d", i))
+				if got := c.Do(op + " " + lp.XS(k)); got != want {
+					c.Violate(lp.Violation{What: "SlimIndex with a key-verifying reader is an exact map (an indexed key asked after an absent string with the same FNV-1a/32 hash)",
+						Script: []string{line, op + " " + lp.XS(q), op + " " + lp.XS(k)}, Expected: want, Got: got})
+					break
+				}
+			}
+		}
+	}
+}
+
 // genC02viaIndex: property C02 through package index: with block offsets,
 // SlimIndex.RangeGet returns the stored record of every indexed key.
 func genC02viaIndex(c *lp.Ctx) {
@@ -293,5 +392,6 @@ func init() {
 	lp.Register("idx", interp)
 	lp.RegisterGen("C12", genC12)
 	lp.RegisterGen("C12", genC12boundary)
+	lp.RegisterGen("C12", genC12hashTwins)
 	lp.RegisterGen("C02", genC02viaIndex)
 }
